@@ -839,7 +839,7 @@ def rule_skip_condition(model):
                    'quotes itself): the tests that skip the html_quote '
                    'modifier / the html-quote format look at nothing but '
                    'the taint mark')
-    fi = model.func('DT_Var', 'Var.render')
+    ren = model.func('DT_Var', 'Var.render')
     n = 0
 
     def leaves(t):
@@ -851,7 +851,8 @@ def rule_skip_condition(model):
         if isinstance(t, ast.UnaryOp) and isinstance(t.op, ast.Not):
             return leaves(t.operand)
         return [t]
-    for x in own_nodes(fi.node):
+    for fi, x in [(f, x) for f in model.closure(ren)
+                  for x in own_nodes(f.node)]:
         if not isinstance(x, ast.If):
             continue
         lv = leaves(x.test)
@@ -887,9 +888,9 @@ def rule_skip_condition(model):
                       'although this form promises exactly the escaped '
                       'value (and the other forms still quote it)',
                       node=x, ctx=fi)
-    if n < 2:
-        raise AnalysisError(f'C03.R7: only {n} quoting skips found in '
-                            'Var.render')
+    if n < 1:
+        raise AnalysisError('C03.R7: no quoting skip found in Var.render '
+                            'or its helpers')
     return r
 
 
